@@ -785,9 +785,8 @@ func cmdCheck(args []string) int {
 			}
 		}
 	}
-	if p.Components != nil {
-		cov["components"] = p.Components
-	}
+	cov["stubs_and_fakes"] = props.Stubs[p.ID]
+	cov["real_code"] = "every package listed under real_code_packages runs the repository's own source from the current working tree, rewritten only at synchronisation/clock/randomness call sites by the build overlay"
 	ev["coverage"] = cov
 	eb, _ := json.MarshalIndent(ev, "", " ")
 	evDir := filepath.Join(*verifDir, "evidence")
